@@ -675,6 +675,66 @@ TxPayAddr(cfg, s, ev) == \* key DIDs only (did:key): x/did UpdatePaymentAddress
     ELSE Tx(s, [w0 EXCEPT !.pay = PutSorted(@, "did", [did |-> ev.did, a |-> ev.acc], LAMBDA d : IndexOf(cfg.didOrder, d)),
                           !.kids = PutSorted(@, "a", [did |-> ev.did, a |-> ev.acc], LAMBDA a : Rank(cfg, a))])
 
+\* ------------------------------------------------------------------ x/did: sid DIDs (Binding, key rotation, payment address)
+\* The did tables have no consensus-relevant iteration order: the spec appends, conformance compares them as sets.
+AccDid(acc, did) == "ad_" \o acc \o "_" \o did
+DidExists(w, did) == Has(w.versions, "doc", did)
+AccListOf(w, did) == IF Has(w.accLists, "did", did) THEN Get(w.accLists, "did", did).accs ELSE <<>>
+BoundDid(w, acc) == IF Has(w.bindings, "acc", acc) THEN Get(w.bindings, "acc", acc).did ELSE ""
+FreshWindow == 900     \* EXPIRE_DURATION, seconds; ev.amount = proof timestamp - block time
+
+TxBinding(cfg, s, ev) ==
+    LET w0 == Work(s)  ad == AccDid(ev.acc, ev.did) IN
+    IF ev.amount + FreshWindow < 0 THEN Tx(s, Fail(w0, "out of date"))
+    ELSE IF InSeq(ad, AccListOf(s, ev.did)) \/ InSeq(ad, s.accAuths) THEN Tx(s, Fail(w0, "auth exists"))
+    ELSE IF Has(s.accIds, "ad", ad) /\ Get(s.accIds, "ad", ad).acc # ev.acc THEN Tx(s, Fail(w0, "invalid account id"))
+    ELSE IF Has(s.bindings, "acc", ev.acc) THEN Tx(s, Fail(w0, "binding exists"))
+    ELSE IF ev.sigmode # "ok" THEN Tx(s, Fail(w0, "invalid binding proof"))
+    ELSE IF DidExists(s, ev.did) /\ BoundDid(s, ev.creator) # ev.did THEN Tx(s, Fail(w0, "invalid creator"))
+    ELSE
+    LET w1 == IF DidExists(s, ev.did) THEN w0
+              ELSE [w0 EXCEPT !.versions = Append(@, [doc |-> ev.did, versions |-> <<ev.did>>]),
+                              !.pay = IF HasPay(s, ev.did) THEN @ ELSE Append(@, [did |-> ev.did, a |-> ev.acc])]
+        w2 == [w1 EXCEPT !.accAuths = Append(@, ad),
+                         !.accLists = IF Has(@, "did", ev.did) THEN Put(@, "did", [did |-> ev.did, accs |-> Append(AccListOf(s, ev.did), ad)])
+                                      ELSE Append(@, [did |-> ev.did, accs |-> <<ad>>]),
+                         !.bindings = Append(@, [acc |-> ev.acc, did |-> ev.did]),
+                         !.accIds = IF Has(@, "ad", ad) THEN @ ELSE Append(@, [ad |-> ad, acc |-> ev.acc])]
+    IN Tx(s, w2)
+
+TxDidUpdate(cfg, s, ev) ==   \* ev.tx = accounts to remove, ev.datas = accounts to keep, ev.commit = past seed ("" = fresh)
+    LET w0 == Work(s)
+        rm == [i \in 1..Len(ev.tx) |-> AccDid(ev.tx[i], ev.did)]
+        keep == [i \in 1..Len(ev.datas) |-> AccDid(ev.datas[i], ev.did)]
+        lst == AccListOf(s, ev.did)
+    IN IF BoundDid(s, ev.creator) # ev.did THEN Tx(s, Fail(w0, "invalid creator"))
+       ELSE IF ev.amount + FreshWindow < 0 THEN Tx(s, Fail(w0, "out of date"))
+       ELSE IF rm = <<>> \/ keep = <<>> THEN Tx(s, Fail(w0, "nothing to update"))
+       ELSE IF ~Has(s.accLists, "did", ev.did) \/ Len(lst) # Len(rm) + Len(keep) THEN Tx(s, Fail(w0, "invalid auth count"))
+       ELSE IF \E i \in 1..Len(lst) : ~InSeq(lst[i], rm) /\ ~InSeq(lst[i], keep) THEN Tx(s, Fail(w0, "unhandled account did"))
+       ELSE IF ev.commit # "" /\ Has(s.seeds, "did", ev.did) /\ InSeq(ev.commit, Get(s.seeds, "did", ev.did).accs) THEN Tx(s, Fail(w0, "seed exists"))
+       ELSE IF ~HasPay(s, ev.did) THEN Tx(s, Fail(w0, "payment address not set"))
+       ELSE IF \E i \in 1..Len(rm) : ~Has(s.accIds, "ad", rm[i]) THEN Tx(s, Fail(w0, "account id not found"))
+       ELSE IF \E i \in 1..Len(rm) : Get(s.accIds, "ad", rm[i]).acc = PayOf(s, ev.did) THEN Tx(s, Fail(w0, "cannot unbind payment address"))
+       ELSE
+       LET rmAcc == {Get(s.accIds, "ad", rm[i]).acc : i \in 1..Len(rm)}
+           newDoc == ev.did \o "_v" \o ToString(Len(Get(s.versions, "doc", ev.did).versions))
+           seed == IF ev.commit # "" THEN ev.commit ELSE "seed-" \o ev.did \o "-" \o ToString(Len(Get(s.versions, "doc", ev.did).versions))
+       IN Tx(s, [w0 EXCEPT !.bindings = SelectSeq(@, LAMBDA b : b.acc \notin rmAcc),
+                           !.accIds = SelectSeq(@, LAMBDA x : ~InSeq(x.ad, rm)),
+                           !.versions = Put(@, "doc", [doc |-> ev.did, versions |-> Append(Get(s.versions, "doc", ev.did).versions, newDoc)]),
+                           !.accAuths = SelectSeq(@, LAMBDA x : ~InSeq(x, rm)) \o SelectSeq(keep, LAMBDA x : ~InSeq(x, s.accAuths)),
+                           !.accLists = Put(@, "did", [did |-> ev.did, accs |-> SelectSeq(lst, LAMBDA x : ~InSeq(x, rm))]),
+                           !.seeds = IF Has(@, "did", ev.did) THEN Put(@, "did", [did |-> ev.did, accs |-> Append(Get(@, "did", ev.did).accs, seed)])
+                                     ELSE Append(@, [did |-> ev.did, accs |-> <<seed>>])])
+
+TxPayAddrSid(cfg, s, ev) ==
+    LET w0 == Work(s) IN
+    IF HasPay(s, ev.did) /\ PayOf(s, ev.did) = ev.acc THEN Tx(s, Fail(w0, "same payment address"))
+    ELSE IF BoundDid(s, ev.creator) # ev.did THEN Tx(s, Fail(w0, "invalid creator"))
+    ELSE IF BoundDid(s, ev.acc) # ev.did THEN Tx(s, Fail(w0, "binding not found"))
+    ELSE Tx(s, [w0 EXCEPT !.pay = Put(@, "did", [did |-> ev.did, a |-> ev.acc])])
+
 \* ------------------------------------------------------------------ blocks
 \* sao/keeper HandleTimeoutOrder
 HandleTimeoutOrder(cfg, w, id) ==
@@ -818,5 +878,8 @@ Apply(cfg, s, ev) ==
       [] ev.kind = "RemoveVstorage" -> TxRemoveVstorage(cfg, s, ev)
       [] ev.kind = "Claim"          -> TxClaim(cfg, s, ev)
       [] ev.kind = "PayAddr"        -> TxPayAddr(cfg, s, ev)
+      [] ev.kind = "Binding"        -> TxBinding(cfg, s, ev)
+      [] ev.kind = "DidUpdate"      -> TxDidUpdate(cfg, s, ev)
+      [] ev.kind = "PayAddrSid"     -> TxPayAddrSid(cfg, s, ev)
       [] OTHER                      -> [st |-> s, res |-> "unmodelled"]
 =============================================================================
